@@ -516,6 +516,7 @@ class StmtMixin:
                     raise_infeasible()
 
         if self.is_stop_loop(st):
+            rec.__dict__["body_effect_start"] = len(run.effects)
             enter_body(all_assigned)
             rec.__dict__["body_entry_env"] = dict(fr.env)
             try:
@@ -541,6 +542,22 @@ class StmtMixin:
             c = run.path.choose(("loop", lid), len(options), tuple(options))
         choice = options[c]
         if choice == "exhausted":
+            if run.cfg.loop_effects:
+                # one generic iteration, only to record the effects the body can have (tagged as in-loop)
+                from .interp import Infeasible
+                saved_env = dict(fr.env)
+                mark = len(run.effects)
+                try:
+                    enter_body(all_assigned)
+                    self.exec_block(body)
+                except (_Continue, _Break, _Return, _Raise, Infeasible):
+                    pass
+                for e in run.effects[mark:]:
+                    if e.extra is None or isinstance(e.extra, dict):
+                        e.extra = dict(e.extra or {}, in_loop=lid)
+                    e.__dict__["in_loop"] = lid
+                fr.env.clear()
+                fr.env.update(saved_env)
             for n in cont_assigned:
                 fr.env[n] = self.generalise(n, fr.env[n], lid, "after")
             if isinstance(st, ast.For):
